@@ -127,6 +127,7 @@ theorem ord_apply {N : Nat} {s : State} (hI : Inv s) (hc : Clean s) (h : Ord N s
       · subst e; exact ordT_of_eq (h j) (by simp) (by simp)
       · simpa [e] using h j
     · exact h
+  | badRelease k => exact h
   | cancel i => simp [Ev.orderly] at ho
   | throw i x => simp [Ev.orderly] at ho
   | interrupt i x => simp [Ev.orderly] at ho
